@@ -32,6 +32,9 @@ PROBES = {
             'cut-unclean', 'fault:connection-cut'],
 }
 
+# reach probes of the "long-lived application" runs (DESIGN section 12.1), tracked like the others
+PROBES['C01'] = list(PROBES['C01']) + ['multi-line-command']
+
 LISTEN_NAMES = ['CIRC', 'STREAM', 'BW', 'HS_DESC']
 OTHER_NAMES = ['NS', 'GUARD']           # valid names that never get a listener here
 
